@@ -5,6 +5,7 @@ CONSTANTS
   Res = {"p1", "p2", "p3", "a1", "a2"}
   TopRes = {"p1", "p2", "a1"}
   Roa <- TraceRoa
+  AspaDefs <- TraceAspa
   ParentOf <- TraceParentOf
   Ops = {}
 SPECIFICATION TraceSpec
